@@ -450,14 +450,16 @@ fn judge(run: &Run, selftest: &str, c: &Case) -> CaseResult {
             .collect::<Vec<_>>()
             .join(" ")
     };
-    let class = if short_first {
-        "first-chunk-1..8-bytes"
-    } else if zero_leaf {
-        "zero-length-chunk-variable-leaf"
-    } else if one_byte_fixed {
+    // Degenerate-size classes first: they fail whatever the split, so they must not be attributed to the
+    // (repaired) short-first-chunk defect.
+    let class = if one_byte_fixed {
         "one-byte-merkle-range-fixed-leaf"
     } else if empty_with_other {
         "empty-merkle-range-beside-other-mdat"
+    } else if short_first {
+        "first-chunk-1..8-bytes"
+    } else if zero_leaf {
+        "zero-length-chunk-variable-leaf"
     } else {
         "other-split"
     };
